@@ -247,6 +247,13 @@ def walk_no_nested(node):
         todo.extend(ast.iter_child_nodes(n))
 
 
+def before(seq, a, b):
+    """a and b are both direct members of seq and a comes first"""
+    ia = [i for i, x in enumerate(seq) if x is a]
+    ib = [i for i, x in enumerate(seq) if x is b]
+    return bool(ia and ib) and ia[0] < ib[0]
+
+
 def parent_map(root):
     pm = {}
     for n in ast.walk(root):
